@@ -67,10 +67,6 @@ func VerifIdle(r *Runtime) VerifIdleState {
 	}
 }
 
-func (s VerifIdleState) String() string {
-	return fmt.Sprintf("%+v", struct{ VerifIdleState }{s}.VerifIdleState)
-}
-
 // VerifRepr names the internal representation of a primitive value.
 func VerifRepr(v Value) string {
 	switch v := v.(type) {
